@@ -26,6 +26,50 @@ def sample(sc, res):
 oracle = oracle_tp.check_exactly_once
 
 
+def moved_cases(rng, n):
+    """the addressed application is a controller application that lost its preferred address A to a lower NAME and now holds
+    A+1: a transfer to A+1 reaches it (exactly once, intact), a transfer to A reaches the CA that kept A"""
+    import gen_ca, scen
+    for k in range(n):
+        A = rng.choice(gen_ca.VETO[:100] + gen_ca.IMMEDIATE[:100])
+        low = gen_ca.mk_name(rng, False) & ((1 << 40) - 1)
+        high = gen_ca.mk_name(rng, True) | (1 << 62)
+        stacks = [dict(dll='j1939-21', max_cmdt=rng.choice([1, 3, 255]), subs=[], cas=[dict(name=high, addr=A, bypass=False, subs=[1], req=[])]),
+                  dict(dll='j1939-21', max_cmdt=3, subs=[], cas=[dict(name=low, addr=A, bypass=False, subs=[2], req=[])]),
+                  dict(dll='j1939-21', max_cmdt=rng.choice([1, 2, 255]), subs=[dict(cid=3, filt=0xF0)], cas=[])]
+        n1, n2 = rng.choice([9, 20, 64]), rng.choice([3, 8, 15])
+        script = [dict(t=1000, s=1, op='ca_start', ca=0, delay=0), dict(t=rng.choice([1500, 120000, 400000]), s=0, op='ca_start', ca=0, delay=0),
+                  dict(t=1_500_000, s=2, op='send', a=[0, 0xD0, A + 1, 6, 0xF0, dict(seed=rng.getrandbits(20), len=n1)]),
+                  dict(t=1_900_000, s=2, op='send', a=[0, 0xD1, A, 6, 0xF0, dict(seed=rng.getrandbits(20), len=n2)])]
+        yield dict(stacks=stacks, lat=[rng.choice([1, 500])], jit=[1], script=script, horizon=4_000_000, meta=dict(kind='moved-ca', A=A))
+
+
+def scenario_runner(sc):
+    import scen
+    return scen.run(sc)
+
+
+def moved_oracle(sc, res):
+    import scen
+    v = []
+    sends = [e for e in sc['script'] if e['op'] == 'send']
+    p1, p2 = tuple(scen.payload(sends[0]['a'][5])), tuple(scen.payload(sends[1]['a'][5]))
+    got1 = [tuple(e[7]) for e in res.trace if e[2] == 'cb' and e[1] == 0 and e[3] == 1 and e[0] > 1_400_000]
+    got2 = [tuple(e[7]) for e in res.trace if e[2] == 'cb' and e[1] == 1 and e[3] == 2 and e[0] > 1_400_000]
+    if got1 != [p1]:
+        v.append(dict(kind='message-to-the-address-a-ca-moved-to-not-delivered', A=sc['meta']['A'], deliveries=len(got1),
+                      holder_state=[list(x) for x in res.cas[0]]))
+    if got2 != [p2]:
+        v.append(dict(kind='message-to-the-contested-address-not-delivered-to-its-keeper', A=sc['meta']['A'], deliveries=len(got2)))
+    return v
+
+
+def scenario_oracle(sc, res):
+    if sc.get('meta', {}).get('kind') == 'moved-ca':
+        return moved_oracle(sc, res)
+    return oracle(sc, res)
+
+
 def run(out, tier, rng, work):
     out.rule = ('2-4 real stacks under virtual time; 1-6 concurrent transfers on distinct (SA,DA) pairs, both directions, sizes on all '
                 'residues mod 7 incl. 0,1,7,8,9,1784,1785, window pairs from {1,2,3,7,8,127,254,255,random}, per-receiver latencies '
@@ -40,6 +84,14 @@ def run(out, tier, rng, work):
                             'role theorems T01.1, T01.3, T01.4, T01.5, frame locality T01.7 proved']
     sprop.run_stateful(out, 'C01', tier, rng, work, FILES, gen, lambda sc, res: oracle_tp.check_exactly_once(sc, res),
                        120, 1500, nontrivial, sample=sample)
+    import scen as _scen
+    for sc in moved_cases(rng, 6 if tier == 'quick' else 60):
+        res = _scen.run(sc)
+        out.add_case(_scen.sc_hash(sc), True)
+        for x in moved_oracle(sc, res)[:1]:
+            out.violation('%s: %s' % (x['kind'], str(x)[:250]), dict(kind=x['kind']), dict(broke='oracle', scenario=sc, violation=x, scenario_name='moved-ca',
+                          how='./check replay <this file> re-runs the scenario on /repo and prints the oracle verdict'))
+            break
     # closed-loop correspondence: the network model of theorem C01_closed_loop_delivers against two real stacks
     n, mism, errors, bad = netcorr.run(work, rng, 16 if tier == 'quick' else 160, big=(tier != 'quick'), tag='c01net')
     out.extra['closed_loop_cases'] = n
